@@ -1,6 +1,7 @@
 #!/bin/bash
 # seedtool.sh verify <seed dir> <pkg dir rel>   : confirm a seeded change in a scratch worktree
 # seedtool.sh run <seed dir> <check id> [--only x] : apply to /repo, run check, revert
+# seedtool.sh runwt <seed dir> <check id> [--only x] : same against a scratch worktree (VERIF_REPO)
 set -u
 export PATH=/opt/veriftools/go1.26.8/bin:$PATH GOTOOLCHAIN=local GOPROXY=off
 cmd=$1; dir=$2
@@ -24,5 +25,14 @@ run)
   git -C /repo apply $dir/patch.diff || exit 3
   (cd /verif && ./check "$@" 2>&1 | grep -E "VIOLATION|INCONCLUSIVE|all obligations|KNOWN" | head -8)
   git -C /repo checkout -- .
+  ;;
+runwt)
+  # like run, but against a scratch worktree (VERIF_REPO) so that /repo stays untouched
+  shift 2
+  wt=/tmp/wt/seedrepo_$$
+  git -C /repo worktree add -q --detach $wt HEAD || exit 3
+  git -C $wt apply $dir/patch.diff || { git -C /repo worktree remove --force $wt; exit 3; }
+  (cd /verif && VERIF_REPO=$wt ./check "$@" 2>&1 | grep -E "VIOLATION|INCONCLUSIVE|all obligations|KNOWN" | head -8)
+  git -C /repo worktree remove --force $wt
   ;;
 esac
